@@ -46,6 +46,29 @@ instance decMonotone : (t : Nat) → (evs : List Event) → Decidable (Monotone 
     | isFalse h1, _ => isFalse (fun h => h1 h.1)
     | _, isFalse h2 => isFalse (fun h => h2 h.2)
 
+instance decStepsMonotone : (t : Nat) → (sts : List Step) → Decidable (StepsMonotone t sts)
+  | _, [] => isTrue trivial
+  | t, st :: sts =>
+    match Nat.decLe t st.now, decStepsMonotone st.now sts with
+    | isTrue h1, isTrue h2 => isTrue ⟨h1, h2⟩
+    | isFalse h1, _ => isFalse (fun h => h1 h.1)
+    | _, isFalse h2 => isFalse (fun h => h2 h.2)
+
+instance (w : World) : Decidable w.synced := by
+  unfold World.synced
+  cases w.proc with
+  | none => exact isTrue trivial
+  | some ml => exact inferInstanceAs (Decidable (_ = _))
+
+instance decSyncedAtTicks (ord : Order) : (sts : List Step) → (w : World) → Decidable (SyncedAtTicks ord sts w)
+  | [], _ => isTrue trivial
+  | .start e :: sts, w => decSyncedAtTicks ord sts (w.step ord (.start e))
+  | .tick n f :: sts, w =>
+    match (inferInstance : Decidable w.synced), decSyncedAtTicks ord sts (w.step ord (.tick n f)) with
+    | isTrue h1, isTrue h2 => isTrue ⟨h1, h2⟩
+    | isFalse h1, _ => isFalse (fun h => h1 h.1)
+    | _, isFalse h2 => isFalse (fun h => h2 h.2)
+
 /-! ### autosave -/
 
 /-- the autosave file does not exist yet, or is byte for byte one of the configs in `A` -/
